@@ -56,7 +56,8 @@ SPEC = {
             "follower, forced leader changes (ResignEtcdLeader) while transactions are parked, free bursts of 2-16 "
             "concurrent requests, IsBootstrapped, a probe of 8 other handlers with the same header, PutClusterConfig with "
             "own/foreign/zero cluster id in header and body, GetClusterConfig (also on the next leader), Tso streams "
-            "of 1-6 requests with chosen header ids, the served "
+            "of 1-6 requests with chosen header ids, a write fault of the leader-local region storage (closed leveldb "
+            "handle) around the winning request, the served "
             "stores/region; (3) 2-8 gated and 2-8 free concurrent initOrGetClusterID calls on a fresh key. "
             "non-trivial = two parked transactions, or a burst, or a leader change with a parked transaction, or a "
             "cluster-id race; distinct = distinct op sequence",
